@@ -243,6 +243,25 @@ def check(ld, parts, label, backend, reqs, hold, res, tmpdir):
             res.violation('legal-description-refused', case, exc_sig(build_err),
                           sig={**sig, 'label': label, 'exc': type(build_err).__name__})
         return
+    if merged != REJECT:
+        try:
+            names = tuple(db.dataset_names)
+            res.count('dataset_names_compared')
+            if names != tuple(merged[0]) + tuple(merged[1]):
+                res.violation('dataset-names-differ', case,
+                              {'got': names, 'want': tuple(merged[0]) + tuple(merged[1])},
+                              sig=sig)
+        except BaseException as e:
+            res.violation('dataset-names-raised', case, exc_sig(e), sig=sig)
+        for bad in (None, 3, {'a': 1}):
+            try:
+                db.get_dataset(bad)
+                res.violation('illegal-request-accepted', {**case, 'name': repr(bad)},
+                              None, sig={**sig, 'why': 'argument-type'})
+            except TypeError:
+                res.count('argument_type_refusals')
+            except BaseException as e:
+                res.seen('argument_type_other_refusals', type(e).__name__)
     held = []
     for name in reqs:
         want = model_get(merged, name)
